@@ -120,7 +120,9 @@ func (b *block) processTags(tf tagValues, tagFamilyIdx, i int, elementsLen int) 
 		} else if t.value != nil {
 			tags[j].uniqueValues[convert.BytesToString(t.value)] = struct{}{}
 		}
-		if t.valueType == pbv1.ValueTypeInt64 {
+		// A null value (nil) must not take part: it compares below every encoded int and
+		// would empty min, which the next value then overwrites, losing the real minimum.
+		if t.valueType == pbv1.ValueTypeInt64 && t.value != nil {
 			if len(tags[j].min) == 0 {
 				tags[j].min = t.value
 			} else if bytes.Compare(t.value, tags[j].min) == -1 {
